@@ -41,6 +41,11 @@ func c12Scenarios(thorough bool) []cmdScn {
 		SeqCalls: [][]callSpec{{{Key: p1, Cmd: 0x8104, TimeoutMs: 50}, {Key: p1, Cmd: 0x8801, TimeoutMs: 3000}}}})
 	out = append(out, cmdScn{Name: "c12:seq-reuse-3", Terms: []termSpec{{Phone: p1, Behaviour: "prompt", Expect: 3, PreHB: 1}},
 		SeqCalls: [][]callSpec{{{Key: p1, Cmd: 0x9101, TimeoutMs: 10}, {Key: p1, Cmd: 0x8103, TimeoutMs: 20}, {Key: p1, Cmd: 0x9205, TimeoutMs: 5000}}}})
+	// the first platform frame on the connection is a command: platform serial 0
+	for _, b := range []string{"inorder", "reverse"} {
+		out = append(out, cmdScn{Name: "c12:serial0:" + b, Terms: []termSpec{{Phone: p1, Behaviour: b, Expect: 2, SilentJoin: true}},
+			Calls: []callSpec{{Key: p1, Cmd: 0x8103, TimeoutMs: 3000}, {Key: p1, Cmd: 0x8104, TimeoutMs: 3000}}})
+	}
 	// absent key next to an online one
 	out = append(out, cmdScn{Name: "c12:absent-key", Terms: []termSpec{{Phone: p1, Behaviour: "inorder", Expect: 1}},
 		Calls: []callSpec{{Key: p1, Cmd: 0x8104, TimeoutMs: 3000}, {Key: "nobody", Cmd: 0x8104, TimeoutMs: 3000}}})
@@ -81,6 +86,14 @@ func c13Scenarios(thorough bool) []cmdScn {
 			mk(fmt.Sprintf("silent-then-timeout:k=%d", k), "", "never", k, k, false, false)
 		}
 	}
+	// requests pipelined, then the terminal disappears while replies are pending and writes to it fail (3 deviations:
+	// the reader must be caught between Read and its hand-over to the writer while the writer tears the connection down)
+	for _, how := range []string{"pipelined-then-reset", "pipelined-then-close"} {
+		for n := 1; n <= 2; n++ {
+			out = append(out, cmdScn{Name: fmt.Sprintf("c13:%s:n=%d", how, n+1), Disconnect: true, FailWrites: true, Bound: 3,
+				Terms: []termSpec{{Phone: p1, Behaviour: "never", CloseAt: how, PreHB: n}}})
+		}
+	}
 	return out
 }
 
@@ -109,7 +122,7 @@ func init() {
 	drv := map[string]func(json.RawMessage) string{"cmd": cmdReplay}
 	vc.Register(&vc.Check{
 		ID: "C12", Level: "model_checking", SingleProc: true,
-		Rule: "real server + scripted terminals + 1..2 (thorough 3) concurrent SendActiveMessage callers with commands from {8103,8104,8801,9101,9205,9206}; terminal behaviours {in order, reverse, only the second, first twice, unknown serial, never, late (after the timers)}, optional heartbeat/location noise, one and two terminals, an absent key, a caller that sends sequentially re-using one ActiveMessage object; " +
+		Rule: "real server + scripted terminals + 1..2 (thorough 3) concurrent SendActiveMessage callers with commands from {8103,8104,8801,9101,9205,9206}; terminal behaviours {in order, reverse, only the second, first twice, unknown serial, never, late (after the timers)}, optional heartbeat/location noise, one and two terminals, an absent key, a caller that sends sequentially re-using one ActiveMessage object, a terminal whose first message gets no reply so that the first command carries platform serial 0; " +
 			"ALL schedules within the deviation bound (2 quick, 3 thorough), timers are scheduler events that may fire at any point (firing ahead of a runnable thread is a deviation). Non-trivial = schedule with >=1 deviation",
 		Assumptions: []string{"timeouts are decided as events, no wall clock (a timeout must not come before the command's own duration has elapsed in virtual time); 'response or timeout' is all that is demanded when a timer fires early, except in executions without early timers, where an answered command must see its answer",
 			"platform-serial wrap between two outstanding commands is not reachable without 65535 preceding frames and is covered only by C06's wrap run"},
@@ -117,7 +130,7 @@ func init() {
 	})
 	vc.Register(&vc.Check{
 		ID: "C13", Level: "model_checking", SingleProc: true,
-		Rule: "C12's machinery with the terminal closing or resetting at every point of its script (before join, after join, after k commands were written, after responding to all / some, never) x k = 0..2 (thorough 0..5) queued or outstanding commands x write failures as a socket answer; ALL schedules within the deviation bound (2 quick, 3 thorough). " +
+		Rule: "C12's machinery with the terminal closing or resetting at every point of its script (before join, after join, after k commands were written, after responding to all / some, never) x k = 0..2 (thorough 0..5) queued or outstanding commands x write failures as a socket answer; plus 2..3 pipelined requests followed by reset/close with failing writes at 3 deviations; ALL schedules within the deviation bound (2 quick, 3 thorough). " +
 			"Oracle: no goroutine panics (process death) and at quiescence every caller has returned. Non-trivial = schedule with >=1 deviation",
 		Assumptions: []string{"'within its timeout plus slack' is decided as: returns in every maximal execution in which timers fire; no wall clock"},
 		Run:         run(c13Scenarios), Drivers: drv,
